@@ -602,7 +602,10 @@ def mkTiny (size samples fpbits : Nat) (env : List String) : Except String (Exce
       | some sk =>
         match mkBloom env with
         | none => .error "env: bloom parameters missing"
-        | some b => .ok (.ok { sketch := sk, door := b, samples := samples, w := 0 })
+        | some b =>
+          let t : TinyLfu := { sketch := sk, door := b, samples := samples, w := 0 }
+          -- the theorems of C10/C11 assume `TinyLfu.WF`; its executable form is checked on every real configuration
+          if t.wfb then .ok (.ok t) else .error "estimator geometry is not well-formed (TinyLfu.wfb)"
 
 def construct (comp : String) (ps env : List String) : Ctor :=
   match comp with
